@@ -11,10 +11,25 @@ SIZED = ('OCTET STRING', 'BIT STRING', 'SEQUENCE OF', 'SET OF') + tuple(asn.STRI
 def node_violation(n):
     r, v = n.r, n.value
     k = r.base.kind
-    if k == 'INTEGER' and r.rng is not None and not r.rng.ext and isinstance(v, int) and not isinstance(v, bool):
-        if not r.rng.contains_root(v):
-            return 'value %d outside %s' % (v, r.rng.inner())
-    if k in SIZED and r.size is not None and not r.size.ext:
+    if k == 'INTEGER' and isinstance(v, int) and not isinstance(v, bool):
+        # serial application: every non-extensible range written along the reference chain must hold
+        for rng in r.rngs:
+            if not rng.ext and not rng.contains_root(v):
+                return 'value %d outside %s' % (v, rng.inner())
+    for size in (r.sizes if k in SIZED else []):
+        why = size_violation(r, k, v, size)
+        if why:
+            return why
+    if k in asn.STRING_KINDS and r.alpha is not None and isinstance(v, str):
+        chars = r.alpha.chars()
+        for c in v:
+            if c not in chars:
+                return 'character %r outside %s' % (c, r.alpha.text())
+    return None
+
+
+def size_violation(r, k, v, size):
+    if size is not None and not size.ext:
         if k == 'BIT STRING':
             n_ = v[1] if isinstance(v, tuple) and len(v) == 2 else None
             if n_ is not None and r.base.named_bits:
@@ -22,19 +37,14 @@ def node_violation(n):
                 data = bytes(v[0])
                 while n_ > 0 and (n_ - 1) // 8 < len(data) and not (data[(n_ - 1) // 8] >> (7 - (n_ - 1) % 8)) & 1:
                     n_ -= 1
-                n_ = max(n_, r.size.lo or 0)
+                n_ = max(n_, size.lo or 0)
         else:
             try:
                 n_ = len(v)
             except TypeError:
                 n_ = None
-        if n_ is not None and not r.size.contains_root(n_):
-            return 'size %d outside SIZE(%s)' % (n_, r.size.inner())
-    if k in asn.STRING_KINDS and r.alpha is not None and isinstance(v, str):
-        chars = r.alpha.chars()
-        for c in v:
-            if c not in chars:
-                return 'character %r outside %s' % (c, r.alpha.text())
+        if n_ is not None and not size.contains_root(n_):
+            return 'size %d outside SIZE(%s)' % (n_, size.inner())
     return None
 
 
